@@ -3,6 +3,7 @@
 mod c10;
 mod c13;
 mod c14;
+mod c15;
 mod c18;
 mod c19;
 pub mod netvalues;
@@ -14,6 +15,7 @@ fn main() {
         "C10" => c10::main(&env),
         "C13" => c13::main(&env),
         "C14" => c14::main(&env),
+        "C15" => c15::main(&env),
         "C18" => c18::main(&env),
         "C19" => c19::main(&env),
         p => {
